@@ -29,16 +29,71 @@ Theorem C15_multiset_split : forall sidx label k k', split_k1 sidx label k = inr
 Proof. exact split_k1_spec. Qed.
 Print Assumptions C15_multiset_split.
 
-(* remove_readout_os on positions: the window [start, start + recon) with start = enc // 2 - recon // 2 for data, every
-   trajectory component and center_sample.  _partial: that IFFT(result) equals the centre crop of IFFT(data), and that
-   compress_coils is an orthogonal projection onto the dominant coil subspace, are checked on the implementation only
-   (family numeric_claims); the model treats the coil axis and the values along k0 as opaque. *)
-Theorem C15_os_crop_window_partial : forall k k', reconx k < encx k -> remove_readout_os k = inr k' ->
-  forall o c a b j, fd k' o c a b j = fd k o c a b ((encx k / 2 - reconx k / 2) + j) /\
-                    (forall m, ft k' m o a b j = ft k m o a b ((encx k / 2 - reconx k / 2) + j)) /\
-                    fi k' 7 o a b = fi k 7 o a b - (encx k / 2 - reconx k / 2).
-Proof. exact remove_os_spec. Qed.
-Print Assumptions C15_os_crop_window_partial.
+(* a merge of k2 into k1 is a regrouping: every (k2, k1) line of the source is line k2 * n_k1 + k1 of the result and every
+   line of the result arises from exactly one (k2, k1): nothing dropped, nothing duplicated *)
+Theorem C15_multiset_rearrange : forall k k', 0 < n1 k -> rearrange_k2_k1_into_k1 k = inr k' ->
+  n2 k' = 1 /\ n1 k' = n2 k * n1 k /\ nO k' = nO k /\ nC k' = nC k /\ n0 k' = n0 k /\
+  (forall o c a b j, 0 <= a < n2 k -> 0 <= b < n1 k ->
+     0 <= a * n1 k + b < n1 k' /\ fd k' o c 0 (a * n1 k + b) j = fd k o c a b j /\
+     (forall m, ft k' m o 0 (a * n1 k + b) j = ft k m o a b j)) /\
+  (forall b', 0 <= b' < n1 k' -> exists a b, 0 <= a < n2 k /\ 0 <= b < n1 k /\ b' = a * n1 k + b /\
+     forall a2 b2, 0 <= b2 < n1 k -> b' = a2 * n1 k + b2 -> a2 = a /\ b2 = b).
+Proof. exact rearrange_bijection. Qed.
+Print Assumptions C15_multiset_rearrange.
+
+(* a split whose index table hits every k1 line exactly once (no overlap, no cyclic wrap) is a regrouping as well *)
+Theorem C15_multiset_split_regrouping : forall sidx label k k', split_k1 sidx label k = inr k' ->
+  (forall b, 0 <= b < n1 k -> exists s e, 0 <= s < Z.of_nat (length sidx) /\ 0 <= e < Z.of_nat (length (hd [] sidx)) /\ zfun2 sidx s e = b /\
+     forall s2 e2, 0 <= s2 < Z.of_nat (length sidx) -> 0 <= e2 < Z.of_nat (length (hd [] sidx)) -> zfun2 sidx s2 e2 = b -> s2 = s /\ e2 = e) ->
+  forall o c a b j, 0 <= b < n1 k -> 0 <= o ->
+    exists s e, 0 <= s < Z.of_nat (length sidx) /\ 0 <= e < n1 k' /\ fd k' (o * Z.of_nat (length sidx) + s) c a e j = fd k o c a b j /\
+      forall s2 e2, 0 <= s2 < Z.of_nat (length sidx) -> 0 <= e2 < n1 k' -> zfun2 sidx s2 e2 = b -> s2 = s /\ e2 = e.
+Proof. exact split_k1_regrouping. Qed.
+Print Assumptions C15_multiset_split_regrouping.
+
+(* remove_readout_os, k-space side (full): for a readout as long as the encoding matrix the window
+   [start, start + recon) with start = enc // 2 - recon // 2 lies inside the readout; exactly recon samples remain; data positions,
+   every trajectory component and center_sample (array 7) are taken from / shifted by the same window; the header matrix is
+   updated so that a second call is the identity.
+   Not covered by a theorem (checked on the implementation by the family numeric_claims): the VALUES along k0 are
+   FFT - crop - FFT of the source readout, i.e. IFFT(result) = centre crop of IFFT(data); compress_coils is an orthogonal
+   projection onto the dominant coil subspace. *)
+Theorem C15_os_crop_window : forall k k', reconx k < encx k -> 0 < reconx k -> n0 k = encx k -> remove_readout_os k = inr k' ->
+  let start := encx k / 2 - reconx k / 2 in
+  0 <= start /\ start + reconx k <= n0 k /\
+  n0 k' = reconx k /\ encx k' = reconx k /\ reconx k' = reconx k /\
+  nO k' = nO k /\ nC k' = nC k /\ n2 k' = n2 k /\ n1 k' = n1 k /\
+  (forall o c a b j, fd k' o c a b j = fd k o c a b (start + j)) /\
+  (forall m o a b j, ft k' m o a b j = ft k m o a b (start + j)) /\
+  (forall r o a b, fi k' r o a b = if r =? 7 then fi k r o a b - start else fi k r o a b) /\
+  remove_readout_os k' = inr k'.
+Proof. exact remove_os_full. Qed.
+Print Assumptions C15_os_crop_window.
+
+(* retained samples = exactly the window, each once *)
+Theorem C15_multiset_os_window : forall k k', reconx k < encx k -> 0 < reconx k -> n0 k = encx k -> remove_readout_os k = inr k' ->
+  let start := encx k / 2 - reconx k / 2 in
+  (forall j, 0 <= j < n0 k' -> start <= start + j < start + reconx k /\ 0 <= start + j < n0 k) /\
+  (forall js, start <= js < start + reconx k -> exists j, 0 <= j < n0 k' /\ start + j = js /\ forall j', start + j' = js -> j' = j).
+Proof. exact remove_os_window. Qed.
+Print Assumptions C15_multiset_os_window.
+
+(* center_sample stays consistent with the trajectory: kx = sample number - center_sample before implies the same after *)
+Theorem C15_os_center_sample_consistent : forall k k', reconx k < encx k -> 0 < reconx k -> n0 k = encx k -> remove_readout_os k = inr k' ->
+  (forall o a b j, ft k 2 o a b j = j - fi k 7 o a b) -> forall o a b j, ft k' 2 o a b j = j - fi k' 7 o a b.
+Proof. exact remove_os_kfreq_consistent. Qed.
+Print Assumptions C15_os_center_sample_consistent.
+
+(* a readout centred in the encoding matrix comes out centred in the recon matrix: kx is the centred grid j - recon // 2, it is 0 at
+   the new centre sample recon // 2, and for odd recon size it is symmetric around 0 (for every parity of the encoding size) *)
+Theorem C15_os_centred_symmetric : forall k k', reconx k < encx k -> 0 < reconx k -> n0 k = encx k -> remove_readout_os k = inr k' ->
+  (forall o a b, fi k 7 o a b = encx k / 2) -> (forall o a b j, ft k 2 o a b j = j - encx k / 2) ->
+  (forall o a b, fi k' 7 o a b = encx k' / 2) /\
+  (forall o a b j, ft k' 2 o a b j = j - encx k' / 2) /\
+  (forall o a b, ft k' 2 o a b (encx k' / 2) = 0) /\
+  (Z.odd (reconx k) = true -> forall o a b j, ft k' 2 o a b (n0 k' - 1 - j) = - ft k' 2 o a b j).
+Proof. exact remove_os_centred. Qed.
+Print Assumptions C15_os_centred_symmetric.
 
 (* shapes: the label tensor written by a split fits the data iff there was a single "other" entry before (KF-04) *)
 Theorem C15_split_label_shape : forall sidx label k k', split_k1 sidx label k = inr k' -> nO k = 1 ->
@@ -84,6 +139,17 @@ Proof. eexists. split; [reflexivity|]. vm_compute. split; reflexivity. Qed.
 
 (* ... and splitting along the axis on which the whole trajectory is broadcast raises IndexError *)
 Example C15_split_broadcast_axis_refuted : split_k1 [[0]; [1]] 4 ex_k = inl ErrIndex.
+Proof. vm_compute. reflexivity. Qed.
+
+(* 6 -> 3 samples (even -> odd): kx = -3..2 with centre sample 3 becomes kx = -1, 0, 1 with centre sample 1 *)
+Definition ex_os : fds :=
+  of_lists [1; 1; 1; 1; 6] [5; 5; 5; 5; 5; 5] [[1; 1; 1; 1]; [1; 1; 1; 1]; [1; 1; 1; 6]] [[0]; [0]; [-3; -2; -1; 0; 1; 2]]
+           [[1]; [0]; [0]; [0]; [0]; [0]; [0]; [3]] [1; 1; 1; 1; 1; 1] 6 3.
+Example C15_example_os :
+  match remove_readout_os ex_os with
+  | inr k' => (n0 k', map (ft k' 2 0 0 0) [0; 1; 2], fi k' 7 0 0 0, encx k') = (3, [-1; 0; 1], 1, 3)
+  | inl _ => False
+  end.
 Proof. vm_compute. reflexivity. Qed.
 
 Example C15_example_run :
